@@ -730,6 +730,10 @@ func (w *World) DisputeStory(o HistOpts) {
 			w.block(o, 2*sec, func() { w.WithdrawFeeRefund(payers[0], payers[0], id) }, func() { w.WithdrawFeeRefund(payers[0], payers[0], id) })
 			return
 		default:
+			// the first payer pays a second part from its bond (two stake-paid fees recorded under one dispute)
+			if fromBond && w.pick(2) == 0 {
+				w.block(o, 3*sec, func() { w.AddFee(payers[0], id, int64(10_000+w.pick(50_000)), true) })
+			}
 			// a plain selector (not a reporter) pays part of the fee from its bond: only its own stake may go down
 			for _, a := range w.Actors {
 				if sl, err := w.App.ReporterKeeper.Selectors.Get(w.Ctx, a.Addr.Bytes()); err == nil && string(sl.Reporter) != string(a.Addr.Bytes()) && string(sl.Reporter) != string(r.Addr.Bytes()) {
@@ -889,7 +893,9 @@ func (w *World) LongDepositStory(o HistOpts, ops []*Actor) {
 		return
 	}
 	// last block of the window: still accepted; the round aggregates in this block
-	w.block(o, 2*sec, func() { w.Submit(ops[1%len(ops)], dep, val) })
+	// (several reporters in that block: the first re-opens the query under a new id, the others must land in that
+	// same new round)
+	w.block(o, 2*sec, func() { w.Submit(ops[1%len(ops)], dep, val) }, func() { w.Submit(ops[2%len(ops)], dep, val) }, func() { w.Submit(ops[0], dep, val) })
 	// the block after: no round any more - a fresh one is opened
 	w.block(o, 2*sec, func() { w.Submit(ops[0], dep, val) })
 	// a tipped deposit round (short window from the registry) that nobody reports in time, reported after expiry
